@@ -15,8 +15,8 @@ from koala.lattice import Lattice, LatticeException
 from koala import graph_utils
 
 DRIVERS = ("c02",)
-MODEL_TARGETS = ["Model/Lattice.vo", "Model/Cache.vo", "Model/Queries.vo"]
-TARGETS = ["Proofs/TablesFacts.vo"]
+MODEL_TARGETS = ["Model/Lattice.vo", "Model/TableSpec.vo", "Model/Cache.vo", "Model/Queries.vo"]
+TARGETS = ["Proofs/TablesFacts.vo", "Proofs/SortFacts.vo", "Proofs/PlaqTablesFacts.vo", "Proofs/CacheFacts.vo", "Proofs/QueriesFacts.vo"]
 LEVEL = "proof"
 TRUST = [
     "hand-written Gallina models coq/Model/Lattice.v (tables), coq/Model/Cache.v (cached_property state machine) and coq/Model/Queries.v (graph_utils helpers): modelled, not verified; tied to the code by the correspondence run (every table, every query, every access history, fresh and unpickled)",
@@ -381,6 +381,7 @@ def parse_model(d, S):
     c = Cursor(d["q_cw"]); m["q_cw"] = c.list(lambda: (c.list(c.int), c.list(c.int)))
     c = Cursor(d["q_ev"]); m["q_ev"] = c.list(lambda: c.list(lambda: (c.z(), c.z())))
     m["pure"] = [parse_value(Cursor(d[f"pure{i}"])) for i in range(4)]
+    m["hyp"] = (d["hyp"][0] == "1") if "hyp" in d else None
     if d["q_ap"][0] == "ERR":
         m["q_ap"] = None
     else:
@@ -493,6 +494,8 @@ def work(item):
         if hi < len(m["hist"]) and any(t != "=" for t in m["hist"][hi]):
             out["kmis"].append(f"model cache run returned a history-dependent value on {ops}")
     have_plaq = not any(isinstance(x, dict) for x in vals0)
+    if m["hyp"] is False:
+        out["kmis"].append(f"{variant}: hypothesis plaq_list_ok of the plaquette-table theorems is false on the model's plaquette list")
     R = full_report(lat0, have_plaq)
     for key, what in spec_tables(P, S, edges, crossing, vals0, R, tolv):
         out["violations"].append((key, f"{variant}: {what}"))
